@@ -122,6 +122,14 @@ pub fn run(n: usize, rng: &mut Rng, rep: &mut Report) {
                 (d, t.replace('\n', " "), "span")
             }
         };
+        // what stands in front of the code block must not matter: blocks that END right before it (reference definitions with
+        // one-line, multi-line and backslash-continued titles, headings, breaks, a paragraph the fence interrupts)
+        let doc = if which == 2 || !rng.chance(1, 3) { doc } else {
+            let pre = *rng.pick(&["[r]: /u\n", "[r]: /u \"a\\\nb\"\n", "[r]: /u 'a\nb\\\nc'\n", "[r]:\n  /u\n  (t)\n", "[r]: </u>\n[s]: /v \"x\\\\\"\n",
+                               "# h\n", "***\n", "h\n===\n", "words\n"]);
+            rep.stats.count("preceded_by_block");
+            if which == 1 { format!("{}\n{}", pre, doc) } else { format!("{}{}", pre, doc) }
+        };
         let full = wrap_ctx(rng, &doc, depth);
         // a first line such as "- -     -" is a thematic break in CommonMark (block structure wins over the list reading)
         let is_hr = |l: &str| { let t: String = l.chars().filter(|c| *c != ' ' && *c != '\t').collect(); t.len() >= 3 && (t.chars().all(|c| c == '-') || t.chars().all(|c| c == '*') || t.chars().all(|c| c == '_')) };
